@@ -536,6 +536,80 @@ Example C18_tie_task_example_nonvacuous :
      = [[]; []; []; [ICb 2 false]; [IThrClose; ICloseRet (Some PXRuntime)]; []; [ICb 1 false]].
 Proof. exact tie_task_example. Qed.
 
+(** ---- tie, thread half, second layer: polarity, stored values, call arguments, __init__.
+    translate/donecb_skeleton.py also regenerates (with `ast`) every method of ThreadDoneCallback as a
+    statement tree (Gen/DoneCbSkeleton.v: init_ast, register_ast, close_ast, monitor_ast, enter_ast,
+    exit_ast; syntax DoneCb/SkelSyntax.v).  DoneCb/SkelFacts.v pins the control SHAPE of each method with
+    a matcher and INTERPRETS THE LEAVES over the model's state: [step_mon_ast], [step_reg_ast],
+    [step_closer_ast] are the model's step functions in which every data-dependent decision (the filter
+    `not t.is_alive()` of the scan, the exit test `not self._active and self._closed` and its `break`,
+    `while True`, `if self._done`, `if exc`, the guard of close()), every stored value (`self._active -
+    done`, `_closed = True`), every iterated expression and every call argument (`self._done(d)`,
+    `exc.append(e)`, `add(thread)`, `join()`, `exc[0]`) is computed from the regenerated expression.
+    Kind: pin of the control shape + interpretation of the leaves, for ALL states. *)
+From NL Require DoneCb.SkelSyntax DoneCb.SkelFacts.
+
+(** __init__ interpreted = Model.init: a new empty builtin set, _closed False, a new lock, the monitor
+    thread ExcThread(target=self._monitor, daemon=True) started after all stores; _monitor's `exc = []` *)
+Theorem C18_skelfacts_init :
+  match SkelFacts.exec_init (SkelSyntax.pm_body init_ast) (fun _ => None, false),
+        SkelFacts.monitor_facts (SkelSyntax.pm_body monitor_ast) with
+  | Some o, Some f => SkelFacts.state_of o (SkelFacts.mf_exc_init f)
+  | _, _ => None
+  end = Some DoneCb.Model.init.
+Proof. exact SkelFacts.skel_init. Qed.
+
+(** defaults (pin): done=None, interval=0.001; register(thread=None) *)
+Theorem C18_skelfacts_defaults :
+  SkelSyntax.pm_defaults init_ast = [Some SkelSyntax.PNone; Some (SkelSyntax.PFloat "0.001")]
+  /\ SkelSyntax.pm_defaults register_ast = [Some SkelSyntax.PNone] /\ SkelSyntax.pm_nparams register_ast = 1
+  /\ SkelSyntax.pm_nparams close_ast = 0 /\ SkelSyntax.pm_nparams monitor_ast = 0.
+Proof. exact SkelFacts.skel_defaults. Qed.
+
+(** __enter__ returns self, __exit__ calls self.close() (pin) *)
+Theorem C18_skelfacts_enter_exit :
+  enter_ast = SkelSyntax.mkMeth 0 [] [SkelSyntax.KReturn SkelSyntax.PSelfObj]
+  /\ exit_ast = SkelSyntax.mkMeth 3 [None; None; None]
+       [SkelSyntax.KDel [0; 1; 2];
+        SkelSyntax.KExpr (SkelSyntax.PCall (SkelSyntax.PSelf SkelSyntax.FClose) [] [])].
+Proof. exact SkelFacts.skel_enter_exit. Qed.
+
+(** _monitor: at EVERY program point, for EVERY state and every [raises], the step computed from the
+    regenerated leaves is the model's step *)
+Theorem C18_skelfacts_monitor_step : forall raises s,
+  SkelFacts.step_mon_ast raises s = DoneCb.Model.step_mon raises s.
+Proof. exact SkelFacts.skel_monitor_step. Qed.
+
+(** register(arg) in thread cur adds (and returns) arg, or cur by default *)
+Theorem C18_skelfacts_register_value : forall cur arg,
+  SkelFacts.reg_value_ast cur arg = Some (match arg with Some u => u | None => cur end).
+Proof. exact SkelFacts.skel_register_value. Qed.
+
+(** register called by thread t for itself: the model's step, for every state *)
+Theorem C18_skelfacts_register_step : forall arg s t, (arg = None \/ arg = Some t) ->
+  SkelFacts.step_reg_ast arg s t = DoneCb.Model.step_reg s t.
+Proof. exact SkelFacts.skel_register_step. Qed.
+
+(** close() called by a thread that is not registered: the model's step, for every state *)
+Theorem C18_skelfacts_close_step : forall s,
+  SkelFacts.step_closer_ast false s = DoneCb.Model.step_closer s.
+Proof. exact SkelFacts.skel_close_step. Qed.
+
+(** close() called by a registered thread raises at the membership test; _closed is not stored *)
+Theorem C18_skelfacts_close_registered : forall s r, closer s = CContains r ->
+  SkelFacts.step_closer_ast true s =
+  (with_closer s (CDone (Some ExRegistered)), OAcc Contains [EvCloseRet (Some ExRegistered)]).
+Proof. exact SkelFacts.skel_close_registered. Qed.
+
+(** the labelled step and every run: the theorems above about [run]/[outs]/[history] of the
+    hand-written model are theorems about the runs of the interpreted regenerated code *)
+Theorem C18_skelfacts_step : forall raises s l,
+  SkelFacts.step_ast raises s l = DoneCb.Model.step raises s l.
+Proof. exact SkelFacts.skel_step. Qed.
+Theorem C18_skelfacts_run : forall raises ls s,
+  SkelFacts.run_from_ast raises s ls = DoneCb.Model.run_from raises s ls.
+Proof. exact SkelFacts.skel_run. Qed.
+
 Print Assumptions C18_skeleton_register.
 Print Assumptions C18_skeleton_close.
 Print Assumptions C18_skeleton_monitor.
@@ -593,3 +667,13 @@ Print Assumptions C18_tie_task_excthread_join_reraises.
 Print Assumptions C18_tie_task_init.
 Print Assumptions C18_tie_task_union_init.
 Print Assumptions C18_tie_task_example_nonvacuous.
+Print Assumptions C18_skelfacts_init.
+Print Assumptions C18_skelfacts_defaults.
+Print Assumptions C18_skelfacts_enter_exit.
+Print Assumptions C18_skelfacts_monitor_step.
+Print Assumptions C18_skelfacts_register_value.
+Print Assumptions C18_skelfacts_register_step.
+Print Assumptions C18_skelfacts_close_step.
+Print Assumptions C18_skelfacts_close_registered.
+Print Assumptions C18_skelfacts_step.
+Print Assumptions C18_skelfacts_run.
